@@ -1,6 +1,10 @@
 package variants
 
-import "github.com/pip-services3-gox/pip-services3-commons-gox/errors"
+import (
+	"math"
+
+	"github.com/pip-services3-gox/pip-services3-commons-gox/errors"
+)
 
 type IVariantOperationsOverrides interface {
 	Convert(value *Variant, newType VariantType) (*Variant, error)
@@ -301,7 +305,7 @@ func (c *AbstractVariantOperations) Pow(
 			return nil, err
 		}
 
-		result.SetAsDouble(value1.AsDouble() * value2.AsDouble())
+		result.SetAsDouble(math.Pow(value1.AsDouble(), value2.AsDouble()))
 		return result, nil
 	}
 
